@@ -9,6 +9,10 @@ import Driver.C04
 import Driver.C14
 import Driver.C17
 import Driver.C09
+import Driver.C10
+import Driver.C06
+import Driver.C12
+import Driver.C13
 
 open Fontc Fontc.Driver
 
@@ -27,9 +31,16 @@ def handlers : List (String × Handler) :=
   |>.cons ("c08", C08.handle)
   |>.cons ("c08mal", C08.handle)
   |>.cons ("c17", C17.handle)
+  |>.cons ("c17x", C17.handleX)
   |>.cons ("c02", C02.handle)
   |>.cons ("c09", C09.handle)
   |>.cons ("c09e2e", C09.handleE2E)
+  |>.cons ("c10", C10.handle)
+  |>.cons ("c10e2e", C10.handleE2E)
+  |>.cons ("c06", C06.handle) |>.cons ("c06glyphs", C06.handleGlyphs) |>.cons ("c06e2e", C06.handleE2E)
+  |>.cons ("c12e2e", C12.handle)
+  |>.cons ("c13lex", C13.handleLex)
+  |>.cons ("c13inc", C13.handleInc)
 
 def processLine (line : String) : String :=
   match Sexp.parse line with
